@@ -6,6 +6,7 @@ CONSTANTS
   MaxHunks = 2
   MaxBody = 3
   Preamble = TRUE
+  MaxConf = 1
   Buf = 1
   Fixes = {}
   ReplayLen = 0
